@@ -153,6 +153,19 @@ def rejection_probe(chk, tier):
                 chk.violation("garble's own flag placed after the command is not rejected: garble %s (exit %s: %s)" % (" ".join(argv), rc, out[-200:].replace("\n", " ")),
                               {"kind": "argv", "argv": argv, "exit": rc, "stderr": out[-600:]}, True, key="own-flag-not-rejected")
                 break
+        # a build flag that the go command only accepts in first position: garble puts its own flags before the user's
+        st2 = chk.cov["streams"].setdefault("e2e:chdir-flag", {"command_lines": 0, "accepted": 0})
+        for argv in (["map", "-C", "m", "."], ["map", "-C=m", "."]):
+            st2["command_lines"] += 1
+            chk.count_cases(["chdir|" + " ".join(argv)])
+            g = subprocess.run(["go", "list", "-C", "m", "."], cwd=scratch, env=env, capture_output=True, text=True, timeout=120)
+            r = subprocess.run([garble] + argv, cwd=scratch, env=env, capture_output=True, text=True, timeout=240)
+            if g.returncode == 0 and r.returncode == 0:
+                st2["accepted"] += 1
+            elif g.returncode == 0:
+                chk.violation("a command line the go command accepts is refused: garble %s (%s)" % (" ".join(argv), r.stderr[-200:].replace("\n", " ")),
+                              {"kind": "argv", "argv": argv, "exit": r.returncode, "stderr": r.stderr[-600:]}, True, key="chdir-flag-not-first")
+                break
     finally:
         shutil.rmtree(scratch, ignore_errors=True)
 
